@@ -4,10 +4,14 @@ import IcyVerif.Drv.Sixel
 namespace IcyVerif.Drv.SixelQueue
 open IcyVerif.SixelQueue IcyVerif.Drv
 
+/-- payload marker of the harness: the decode thread of this sequence is made to panic (through the gate hook) -/
+def panicMarker : String := "ff50414e4943ff"
+
 /-- `px,py,hexpayload` → what the decode thread of image `id` returns (sizes from the sixel model) -/
 def parseSpec (id : Nat) (s : String) : Option Res :=
   match s.splitOn "," with
   | [x, y, h] =>
+    if h == panicMarker then some .panicked else
     match x.toNat?, y.toNat?, parseHex h with
     | some px, some py, some bs =>
       match IcyVerif.Sixel.parse (Sixel.chars bs) with
@@ -21,6 +25,7 @@ def parseSpec (id : Nat) (s : String) : Option Res :=
 def parseEv (s : String) : Option Ev :=
   match s.toList with
   | ['p'] => some .poll
+  | ['c'] => some .clear
   | 'a' :: ds => (String.ofList ds).toNat?.map .arrive
   | 'f' :: ds => (String.ofList ds).toNat?.map .finish
   | _ => none
